@@ -6,7 +6,8 @@ Section Lemmas.
 Variable exp : Type.
 Variable evale : list Z -> exp -> outcome Z.
 Variable wrapc : Z -> Z.
-Notation runs := (runs exp evale wrapc).
+Variable ftab : nat -> option (nat * code exp).
+Notation runs := (runs exp evale wrapc ftab).
 
 (* code whose free jumps stay within the loops ls runs the same inside further loops *)
 Lemma weaken ls env rg c v : runs ls env rg c v -> forall ex,
@@ -26,6 +27,7 @@ Proof.
   - econstructor; eauto.
   - constructor; auto.
   - constructor. apply IHruns. destruct (eval_cond c (ropv wrapc rg a) (ropv wrapc rg b)); tauto.
+  - econstructor; eauto.
 Qed.
 
 Lemma top_ok_mono (c : code exp) d d' : (d <= d')%nat -> top_ok d c -> top_ok d' c.
